@@ -375,7 +375,7 @@ void run_case(Input const& in, Ctx& ctx) {
 			long n = d.size(false), m = d.size(false);
 			if(!vp::known_mode() && (n == 1 || m == 1)) { ctx.count("excluded_level3_extent_one"); if(n == 1) { n = 2; } if(m == 1) { m = 3; } }
 			bool const left = (form & 1U) != 0, upper = (form & 2U) != 0;
-			MSpec sa = d.mspec(false, true), sb = d.mspec(false, false);
+			MSpec sa = d.mspec(true, true), sb = d.mspec(true, true);  // A and B plain, transposed, conjugated or hermitian (whatever the adaptor accepts; rejections are counted)
 			T alpha = d.scalar(); if(alpha == mkT(0, 0)) { alpha = mkT(1, 0); }
 			Mat A = d.mat(n, n, 1);
 			for(long i = 0; i < n; ++i) { for(long j = 0; j < n; ++j) { if(i == j) { A(i, j) = mkT((i % 2) ? -1 : 1, 0); } else if(upper ? j < i : j > i) { A(i, j) = mkT(0, 0); } } }
@@ -387,7 +387,7 @@ void run_case(Input const& in, Ctx& ctx) {
 			must_accept = false;
 			res = in_child([&]() -> std::string {
 				RealM ra(A, sa), rb(B, sb); std::string out;
-				ra.template with_view<false>([&](auto&& a) { rb.template with_view<false>([&](auto&& b) { blas::trsm(left ? blas::side::left : blas::side::right, upper ? blas::filling::upper : blas::filling::lower, alpha, a, b); }); });
+				ra.with_view([&](auto&& a) { rb.with_view([&](auto&& b) { blas::trsm(left ? blas::side::left : blas::side::right, upper ? blas::filling::upper : blas::filling::lower, alpha, a, b); }); });
 				out = cmp(rb.logical(), X, "trsm", static_cast<R>(64)*std::numeric_limits<R>::epsilon()*static_cast<R>(n*40));
 				if(out.empty() && !rb.padding_intact()) { out = "trsm wrote outside the output view"; } if(out.empty()) { out = cmp(ra.logical(), A, "trsm modified A"); }
 				return out;
